@@ -27,7 +27,7 @@ CLAIMS['C09'] = {
           '(no DS, not valid, qcfail); mirroring any mapped read onto the reverse-complemented reference mirrors its site and flips its strand (NLA and CHIC); the molecule site is the outermost fragment site and molecule-level site/DS after write_tags are mirror-symmetric.',
   'note': 'Regenerated on every run: the tail of both identify_site functions (clip correction, guard chain, offsets, RZ, rejection) by a fail-closed statement '
           'extractor in tools/c09.py (trusted). Modelled not verified (compared in K): pysam reference_end/cigartuples/seq, tag storage, Fragment.__init__ '
-          'bookkeeping, set_site/is_valid. Not modelled: no_overhang mode, max_fragment_size, CHIC homopolymer filter. Assumes the soft clip is the outermost '
+          'bookkeeping, set_site/is_valid. The CHIC homopolymer filter is modelled (nucleotide list and length regenerated from source; strand symmetry proved). Not modelled: no_overhang mode, max_fragment_size; forwarding of command-line flags to the fragment classes is checked by running the command lines only. Assumes the soft clip is the outermost '
           'CIGAR operation; ground truth is the simulator definition (first cycle pairs with the first motif/overhang base).'}
 CLAIMS['C14'] = {
   'technique': 'Coq proof over an executable model + context tables regenerated from the live TAPS object (finite-domain vm_compute proof with the bound stated) + correspondence check',
@@ -36,7 +36,7 @@ CLAIMS['C14'] = {
           'is the true strand context (none when truncated / non-ACGT), upper case iff the consensus shows C>T / G>A; XM has one character per aligned base; '
           'MC/uC/sZ/sz/sX/sx/sH/sh equal the entry counts (induction over the call list); histories: molecules sharing one TAPS object across contigs, and finalise/grow/finalise histories on one molecule, answer as computed alone for the fragments held.',
   'note': 'Modelled not verified: pysam (get_aligned_pairs/MD, FastaFile.fetch), CachedFasta slicing, numpy argmax/tie test, dict/Counter semantics; molecule abstraction '
-          'computed by impl_c14.py with pysam; table tie = reflection + AST check (fail closed on refactors of TAPS.__init__). search() evaluates a Python transcription of the statement.'}
+          'computed by impl_c14.py with pysam; table tie = reflection + AST check (fail closed on refactors of TAPS.__init__). search() evaluates a Python transcription of the statement. Vote counts are unbounded integers in the model (the implementation accumulates them in a numpy vector; watched by K with molecules of 255-523 fragments).'}
 CLAIMS['C17'] = {
   'technique': 'Coq proof (induction over the blacklist / fuelled loops, lia) about an executable Gallina transcription + exhaustive small-scope correspondence check',
   'text': 'For every region, bin size > 0, blacklist of intervals (overlapping, adjacent, empty, unsorted, covering or outside the region) and fragment size >= 0 the model '
@@ -52,7 +52,7 @@ CLAIMS['C01'] = {
           'R1/R2 of every sink and cell carry the same (pair, strategy) sequence in input order; processed = min(n, max(1, maxReadPairs)); strategyYields[j] = accepted pairs = R1 records written; '
           'the reader stops at the first exhausted index. Model predicts the bytes of every output file and the counters for 274 (quick) / 9k (thorough) real libraries x 28 strategies.',
   'note': 'Modelled not verified: gzip, text decoding, file system, HandleLimiter (C19). Strategies and the reject-header builder are parameters (what a strategy extracts is C02, barcode correction C03, '
-          'header codec C04); their outcome class per pair is measured by calling the real code. A partial write (R1 serialised, R2 raising) is modelled and excluded from the theorems by step_ok, which is checked on the real code (C01_partial_write_refuted); prune-crossing per-cell libraries (> 10000 writes), the demux.py file-list pairing and run histories into one output directory are checked against the specification on the real files only. A reject record that cannot be formatted (over-long library name) aborts the run loudly: outside the '
+          'header codec C04); their outcome class per pair is measured by calling the real code. A partial write (R1 serialised, R2 raising) is modelled and excluded from the theorems by step_ok, which is checked on the real code (C01_partial_write_refuted); prune-crossing per-cell libraries (> 10000 writes), the demux.py file-list pairing and run histories into one output directory are checked against the specification on the real files only; strategy registration/selection (unique short names, only_detect_methods, indexFileAlias) is a hypothesis checked by K on every loader construction; the loader result is proved independent of the log handle (C01_log_independent). A reject record that cannot be formatted (over-long library name) aborts the run loudly: outside the '
           'precondition, recorded by C01_reject_crash_refuted. search() uses a Python transcription of Props/C01.v. No translator tie (K only).'}
 CLAIMS['C02'] = {
   'technique': 'Coq proof (Python-slice lemmas, induction over read tuples, vm_compute over the strategy table regenerated by reflection; Gallina models of the 5 composite strategies and the bulk strategy over the single-protocol arm models, trimmer lemmas by induction, literals regenerated by AST and pinned) + correspondence check against the real strategies',
@@ -62,7 +62,7 @@ CLAIMS['C02'] = {
           'equal to a pinned protocol table for the 22 single-protocol strategies (C02_registered_wf); composites: every accepted pair yields one record per mate, each a contiguous stretch of its own mate at or after the arm insert start with aligned bases/qualities, dropped bases exactly the declared trim (C02_composite_spec, C02_prune_rule, C02_trim_r2); all 28 compared with the model on ~10k (quick) / 245k (thorough) read tuples.',
   'note': 'Whitelist lookup (C03) and header parsing (C04) are parameters. Layouts come from reflection plus a trace call; the pinned protocol table is hand-written. Composite strategies (TCHIC, CHICTV, '
           'DamAndT, DamID2andT_*) and ILLU: dispatch structure hand-transcribed and K-validated; re.sub with $ modelled as a suffix strip; DamID2_scattered_10bp exercised with a synthetic whitelist; '
-          'the TCHIC rx tag may come from the reverse complement of read 2 (stated in C02_tchic_spec). Index-alignment clause assumes equal sequence and quality length.'}
+          'the TCHIC rx tag may come from the reverse complement of read 2 (stated in C02_tchic_spec). Index-alignment clause assumes equal sequence and quality length. FastqIterator, FastqHandle and the demux.py command line (file-level stream: plain/gz, LF/CRLF, with/without trailing newline, shuffled argument orders) are covered by K only.'}
 CLAIMS['C04'] = {
   'technique': 'Coq proof (split/join inverse by induction over list Z strings, finite-domain phred tables) + constants/tables regenerated from source by AST and reflection + correspondence through demultiplex -> asFastq -> pysam -> QueryNameFlagger',
   'text': 'For every well-formed tag store decode(asFastq header) restores every written tag; the tagger derives SM=LY_bi, MI=BC+RX+aA, the name Is:RN:Fc:La:Ti:CX:CY and RG; phred tags return as the '
@@ -140,9 +140,9 @@ CLAIMS['C06'] = {
           'C09) and is additionally checked against generator ground truth; pysam flag/tag storage, Counter order and reflected __eq__ dispatch are modelled and sampled by K; re-tag idempotence is for the same arrival order. T: the __eq__/umi_eq guard chains, the match_hash tuples (composed with what set_site stores), the add_fragment capacity decision and the write_tags tag expressions are regenerated into Gen/GenAssign.v on every run (tools/c06_gen.py, fail closed) and the model is defined with them (C06_kernel_*); running-state folds and the iterator loop remain hand-written (K).'}
 CLAIMS['C18'] = {
   'technique': 'Coq proof: state-machine refinement of the eager / lazy (clear-on-fetch) / cached AlleleResolver against a loop-free mode-independent specification; character-level write_cache/read_cached round trip; correspondence on the real class',
-  'text': 'For every VCF, every phased/select_samples/ignore_conversions setting and every history of runs sharing one cache directory (each run eager, lazy or cached, first run writing, later runs reading, '
+  'text': 'For every VCF (sample names may contain blanks), every phased/select_samples/ignore_conversions setting and every history of runs sharing one cache directory (each run eager, lazy or cached, first run writing, later runs reading, '
           'any query sequence and contig order incl. returning to an evicted contig) getAllelesAt/has_location return exactly the specification: the selected samples whose genotype at the last informative '
-          'record of the site contains the base, nothing for absent, uninformative or ignored-conversion sites; the cache file format round-trips; several resolver objects in one process answer independently (C18_objects_independent). ~16k (quick) / ~730k (thorough) lookups, cache files byte for byte.',
+          'record of the site contains the base, nothing for absent, uninformative or ignored-conversion sites; the cache file format round-trips; several resolver objects in one process answer independently (C18_objects_independent); getAllele(reads) returns what the specification answers give and leaves the table unchanged (C18_getAllele_spec). ~16k (quick) / ~730k (thorough) lookups, cache files byte for byte.',
   'note': 'Modelled not verified: pysam VCF parsing and tabix fetch (abstraction compared with pysam\'s view of every generated record), gzip/text codec, dict/set semantics. Assumes indexed VCF with >= 1 sample '
           'column, region_start/end None, sample names without blanks/commas, VCF unchanged between runs, and - for histories mixing settings - no two (contig, settings) pairs mapping to one cache '
           'file name (checked per history). The monomorphic rule re-admitting multi-base sites is specified as coded. T: the kernel of the machine (single-nucleotide tests, selection filter, continue-vs-break on missing alleles, bad/monomorphic rules, ignore_conversions guard and key, store test, cache file name pieces, cache line format, read_cached separators/filters, has_location invalid-contig result, use_cache=>lazyLoad, per-instance table) is regenerated into Gen/GenAlleles.v (fail closed) and connected to the reference definitions by shape lemmas (C18_source_shape); the loop/dict structure is hand-modelled and tied by K.'}
@@ -160,7 +160,7 @@ CLAIMS['C20'] = {
           'single-process and multiprocess pipelines: when <out>.status.txt says "Reached end. All ok!" the output BAM exists, is complete, coordinate sorted and indexed; a run that returns ends in that '
           'state; a run that raises never leaves the success marker; a pool worker that returns has written a complete sorted indexed temp BAM. Model and real code agree on 265 (quick) / 476 (thorough) '
           'injected-fault runs (nla and chic, both pipelines, every molecule index).',
-  'note': 'PARTIAL: process death (kill -9, power loss) is not modelled, only SIGKILL samples in K. The effect of each call is decided by callee name and whether it receives the output path (modelled); '
+  'note': 'PARTIAL: process death (kill -9, power loss) is not modelled, only SIGKILL samples in K. The theorems quantify over the exception class of every failing step (each except clause is translated with the classes it names; C20_worker_complete excludes the deliberately swallowed TimeoutError). The input side (verify_and_fix_bam), job construction and cleanup of empty jobs are outside the model: K covers them with stale-input-index histories and multi-contig inputs compared with the serial run. Every tagger case runs in its own process group with a hard timeout (hangs are counted, fail closed above 2%). The effect of each call is decided by callee name and whether it receives the output path (modelled); '
           'pysam.sort/merge/index produce complete sorted indexed files (K reads the real files back). Not translated: --cluster branch, body of run_tagging_task; -head / -max_time_per_segment excluded. '
           'The translator fails closed on unrecognised shapes (e.g. a reshaped sort-retry loop gives no-failing-input-found). C20_fail_not_ok assumes no stale success marker at start.'}
 NOT_APPLICABLE = {}
